@@ -9,8 +9,8 @@ import (
 	sdkmath "cosmossdk.io/math"
 	abci "github.com/cometbft/cometbft/abci/types"
 	tmproto "github.com/cometbft/cometbft/proto/tendermint/types"
-	evmante "github.com/haqq-network/haqq/app/ante/evm"
 	sdk "github.com/cosmos/cosmos-sdk/types"
+	evmante "github.com/haqq-network/haqq/app/ante/evm"
 
 	feemarkettypes "github.com/haqq-network/haqq/x/feemarket/types"
 )
